@@ -60,7 +60,9 @@ func Merge[T any](out chan<- T, in ...<-chan T) {
 		}
 		chosen, item, ok := reflect.Select(selectCases)
 		if ok {
-			out <- item.Interface().(T)
+			// comma-ok: a nil value of an interface-typed T comes back as an untyped nil interface.
+			v, _ := item.Interface().(T)
+			out <- v
 		} else {
 			selectCases = xslices.RemoveUnordered(selectCases, chosen, 1)
 		}
